@@ -2,6 +2,7 @@ package path
 
 import (
 	"errors"
+	"fmt"
 )
 
 func build(source string, parsed any) PropertyPath {
@@ -52,9 +53,14 @@ func ParsePath(path string) (PropertyPath, error) {
 			},
 		}, nil
 	}
-	parsed, err := Parse("", []byte(path))
+	// the grammar's entry rule has no end-of-input check: run the generated parser ourselves to see how far it got
+	parser := newParser("", []byte(path))
+	parsed, err := parser.parse(g)
 	if err != nil {
 		return nil, err
+	}
+	if parser.pt.offset < len(path) {
+		return nil, errors.New(fmt.Sprintf("unexpected input %q at offset %d of property path %q", path[parser.pt.offset:], parser.pt.offset, path))
 	}
 
 	propertyPath := build(path, parsed)
